@@ -417,6 +417,24 @@ def main(ctx):
                 hist[f"{kind}/{pd[0]}"] = hist.get(f"{kind}/{pd[0]}", 0) + 1
                 if bad:
                     fails.append((kind, pd, args, bad))
+    # designed: pure dephasing is the ONLY noise source (p = 0 and T1 = 0 with a finite T2) - nothing may be short-cut away
+    for pd in pds[:2]:
+        for kind, fn in (("single", case_single), ("cr", case_cr)):
+            args = make(rng, kind)
+            if kind == "single":
+                args[2], args[3], args[4] = 0.0, 0.0, rng.uniform(5e-6, 300e-6)
+            else:
+                args[3], args[4], args[5], args[6], args[7] = 0.0, 0.0, rng.uniform(5e-6, 300e-6), 0.0, rng.uniform(5e-6, 300e-6)
+            if args[0] == 0.0:
+                args[0] = 0.8
+            try:
+                bad = fn(pd, *args)
+            except Exception as e:              # noqa
+                bad = [f"raised {type(e).__name__}: {e}"]
+            ctx.count()
+            hist[f"{kind}/dephasing-only"] = hist.get(f"{kind}/dephasing-only", 0) + 1
+            if bad:
+                fails.append((kind, pd, args, bad))
     # the same angle at two durations on one factory object (what the composite gates do with theta = pi/4 on couplings of
     # different gate time): the second sample must follow its own duration
     for pd in (pds if ctx.thorough else pds[:3]):
